@@ -102,6 +102,7 @@ type Contract struct {
 	CaseOnly      ast.Expr // filter over split variables: only these cases exist
 	InstMods      []*InstMod
 	AssertBefore  []*AssertAnchor
+	AssertAfter   []*AssertAnchor // assertafter "anchor" ...: checked right after the anchored statement
 	Uses          []string // quantified callee clauses to assume at call sites: "callee.clause" or "callee.*"
 }
 
@@ -645,6 +646,23 @@ func (cf *ContractFile) parseOne(path string) error {
 					cl.Name = fmt.Sprintf("assert.%d", len(c.AssertBefore)+1)
 				}
 				c.AssertBefore = append(c.AssertBefore, &AssertAnchor{Anchor: rest[1 : 1+j], Cl: cl})
+			case "assertafter":
+				// assertafter "<statement text prefix>" [PROPS] name: EXPR  (checked right after the statement)
+				if !strings.HasPrefix(rest, "\"") {
+					return fail(fmt.Errorf("assertafter needs a quoted anchor"))
+				}
+				ja := strings.Index(rest[1:], "\"")
+				if ja < 0 {
+					return fail(fmt.Errorf("assertafter: unterminated anchor"))
+				}
+				cla, err := parseClause(strings.TrimSpace(rest[2+ja:]), it.line)
+				if err != nil {
+					return fail(err)
+				}
+				if cla.Name == "" {
+					cla.Name = fmt.Sprintf("assertafter.%d", len(c.AssertAfter)+1)
+				}
+				c.AssertAfter = append(c.AssertAfter, &AssertAnchor{Anchor: rest[1 : 1+ja], Cl: cla})
 			case "ghostcall":
 				if !strings.HasPrefix(rest, "\"") {
 					return fail(fmt.Errorf("ghostcall needs a quoted anchor"))
